@@ -1,5 +1,6 @@
 //! Harness for the layer / filter properties: C07 C08 C09 C11 C12.
 mod c07;
+mod c08;
 mod c09;
 mod c09_stacks;
 mod rl;
@@ -10,6 +11,7 @@ fn main() {
     let code = match args.property.as_str() {
         "C07" => c07::run(&args),
         "BENCH07" => { c07::bench(); 0 }
+        "C08" => c08::run(&args),
         "C09" => c09::run(&args),
         p => {
             eprintln!("h_filt: unknown property {}", p);
